@@ -862,12 +862,15 @@ Proof.
 Qed.
 
 (* engines made of block, flex and grid containers and leaves: every kind of node TaffyView::compute_child_layout dispatches on.
-   Replacing display:none subtrees changes nothing elsewhere; no premise on the algorithms is left *)
+   Replacing display:none subtrees changes nothing elsewhere; no premise on the algorithms is left.  `disp` is ANY dispatch on (own style,
+   number of children) -- Model/TaffyEngine.v `taffy_dispatch` is the one of taffy_tree.rs --, `leaf` ANY leaf routine (`taffy_leaf` is
+   compute_leaf_layout with the node's measure function, which is part of the style); the instance these parameters give with
+   `block_pre` / `abs_child_block` is run against the implementation on whole trees by `vh taffytree` (notes/TAFFYTREE.md) *)
 Theorem C05_taffy_engine_hidden_invisible :
-  forall (T : Type) (N : Num T) (is_grid : TStyle T -> bool) (kind : BFStyle T -> NodeKind) (pre : BStyle T -> BIn T -> BIn T)
-         (abs_child : @AbsChild T) (leaf : BFStyle T -> FIn T -> LayoutOutput T)
+  forall (T : Type) (N : Num T) (disp : TStyle T -> nat -> TKind) (pre : BStyle T -> BIn T -> BIn T)
+         (abs_child : @AbsChild T) (leaf : TStyle T -> FIn T -> LayoutOutput T)
          (mode : FIn T -> RunMode) (in_eqb : FIn T -> FIn T -> bool) (hidden_out : LayoutOutput T) (zero_lay : FLay T),
-    let algo := taffy_algo is_grid kind pre abs_child leaf in
+    let algo := taffy_algo disp pre abs_child leaf in
     forall k k', hsim (TStyle T) t_is_none k k' ->
     forall f i,
       plain (TStyle T) (FIn T) (LayoutOutput T) (FLay T) mode t_is_none hidden_out algo f k i =
@@ -878,7 +881,7 @@ Theorem C05_taffy_engine_hidden_invisible :
            (memo (TStyle T) (FIn T) (LayoutOutput T) (FLay T) mode in_eqb t_is_none hidden_out zero_lay algo f
                  (fresh (TStyle T) (FIn T) (LayoutOutput T) (FLay T) zero_lay k') i).
 Proof.
-  intros T N is_grid kind pre abs_child leaf mode in_eqb hidden_out zero_lay algo k k' Hs f i.
+  intros T N disp pre abs_child leaf mode in_eqb hidden_out zero_lay algo k k' Hs f i.
   apply C05_hidden_blind_engine; [|exact Hs]. apply taffy_algo_hidden_blind.
 Qed.
 
